@@ -117,7 +117,8 @@ Res run_scn(Scn const& sc)
 	if (sc.stop_at_boundary >= 0) Hook::set([&](int) { if (boundary++ == sc.stop_at_boundary && !stopped) { srv->stop(); stopped = true; } });
 	try { sim.run(); } catch (...) { Hook::clear(); throw; }
 	Hook::clear(); R.boundaries = boundary;
-	bool const with_stop = sc.stop_at_ms >= 0 || (sc.stop_at_boundary >= 0 && stopped);
+	// stop() only ends the listening: a connection the server had already accepted (the client's connect succeeded) is served by the usual rules
+	bool const with_stop = (sc.stop_at_ms >= 0 || (sc.stop_at_boundary >= 0 && stopped)) && !connected;
 	R.eof = eofs > 0;
 	std::vector<Resp> want; bool want_eof, want_stall; reference(sc.seq, sc.keep_alive, want, want_eof, want_stall);
 	if (!with_stop) {
